@@ -15,19 +15,33 @@ RULE = ("every text of a 18-text pool (incl. combining / zero-width characters) 
         "characters; keepends False/True; prefixes/suffixes/substrings). For delegated methods the real str result is "
         "handed to the model as the value of the uninterpreted method. non-trivial = distinct (layout, method, args) on "
         "a string with at least one character")
-ASSUMPTIONS = ["texts and results contain no ESC (fmtstr(result) would parse escape sequences; C05/C17)",
-               "split is called with an explicit non-empty separator or a regex that does not match the empty string, "
-               "without maxsplit (the statement names explicit separators and regexes). Outside it and not checked: "
-               "split('') returns pieces where str raises ValueError, split() with sep=None keeps leading/trailing empty "
-               "pieces, maxsplit raises NotImplementedError",
+ASSUMPTIONS = ["texts contain no ESC; a RESULT text containing ESC '[' (replace with such a replacement, an ESC fill character "
+               "before '[') is re-parsed by fmtstr: open finding D27, footprint = the re-wrapped str result contains ESC '['",
+               "reading of 'other text results carry the formatting shared by all characters' for ljust/rjust without "
+               "fill character, checked EXACTLY: sh = entries common to all characters; if sh has a bg, the original "
+               "characters are unchanged and the padding carries {bg} only (NOT the other shared attributes); otherwise "
+               "every original character loses its (non-shared) bg and the padding carries exactly sh. The clause is met "
+               "with equality only in the no-shared-bg branch; no result shows formatting no character had",
+               "split is called with an explicit separator ('' included: ValueError like str) or a regex that does not "
+               "match the empty string, without maxsplit (the statement names explicit separators and regexes). Outside it "
+               "and not checked: split() with sep=None keeps leading/trailing empty pieces, maxsplit raises "
+               "NotImplementedError",
                "fill characters are one-character strs, widths are ints (anything else is str's own TypeError)",
                "a regex is matched by CPython's re: the model receives the match spans",
                "for an original without any character 'formatting shared by all characters' is vacuous; results may then "
                "carry only attributes present on some run of the original",
                "which characters are line boundaries is CPython's str.splitlines: the model receives that set"]
-LEVEL_NOTE = ("partial: delegated str methods are uninterpreted functions in Lean (that `m` is CPython's str.upper etc. is not a "
-              "Lean fact), regex matching enters as a list of spans; trusted: Lean kernel + propext/Classical.choice/Quot.sound, "
-              "the hand-written model and specs, extract.py, the wire codec; CPython is modelled not verified")
+LEVEL_NOTE = ("PROVED in Lean for all inputs of the model: split on any span list and on an explicit separator (texts = "
+              "Spec.strSplit, pieces = slices of f; '' raises ValueError), splitlines (texts = Spec.strSplitlines, piece i = "
+              "slice at the explicit span of line i), join (C06), ljust/rjust (exact attributes of characters and padding, "
+              "text = padded text), fill-character variants and the generic delegation theorem (result carries EXACTLY the "
+              "formatting shared by all characters; bytes / non-text answers / exceptions pass through), fmtstr(text, **dict) "
+              "= Chunk(text, dict) via the parse_args soundness theorem. PARTIAL: delegated str methods are uninterpreted "
+              "functions (that `m` is CPython's str.upper etc. is not a Lean fact - the correspondence hands the real str "
+              "result to the model); regex matching enters as a span list; the str specs (split, splitlines, ljust) are "
+              "hand-written and cross-checked against CPython only through the correspondence; result texts containing ESC '[' "
+              "are excluded by hypothesis (open finding D27, witness theorem C15_delegate_witness). Trusted: Lean kernel + "
+              "propext/Classical.choice/Quot.sound, the hand-written model and specs, extract.py, the wire codec")
 
 R, B, U = {"fg": 31}, {"bg": 44}, {"underline": True}
 
@@ -61,6 +75,7 @@ TEXTS = ["a,b,,c", ",a,", "ab", "", "a b  c", "l1\nl2\r\nl3\rl4\n", "x\n", "\n\n
 STR_METHODS = ["upper", "lower", "capitalize", "title", "swapcase", "casefold", "strip", "lstrip", "rstrip", "center", "zfill",
                "replace", "expandtabs", "removeprefix", "removesuffix"]
 LIST_METHODS = ["rsplit"]
+BYTES_METHODS = ["encode"]
 OTHER_METHODS = ["find", "rfind", "index", "rindex", "count", "startswith", "endswith", "isalpha", "isdigit", "isspace", "isupper",
                  "islower", "istitle", "isalnum", "isidentifier", "isprintable", "isascii", "isdecimal", "isnumeric", "partition",
                  "rpartition"]
@@ -77,10 +92,13 @@ def arg_pool(name, t):
         return [(), (" ",), (t[:1] + ",",), ("zq",)]
     if name == "center":
         return [(w,) for w in (0, n - 1, n, n + 1, n + 4)] + [(n + 3, "."), (n + 2, "漢")]
+    if name == "encode":
+        return [(), ("utf-8",), ("ascii", "replace")]
     if name == "zfill":
         return [(w,) for w in (0, n, n + 1, n + 3)]
     if name == "replace":
-        return [(s, r) for s in subs[:5] for r in ("", "Q", "long ")] + [(subs[0], "Q", 1)]
+        esc = [("a", "\x1b[31mx\x1b[39m"), (subs[0], "\x1b[1m")] if len(t) in (2, 3) else []   # D27: rare
+        return [(s, r) for s in subs[:5] for r in ("", "Q", "long ")] + [(subs[0], "Q", 1)] + esc
     if name == "expandtabs":
         return [(), (4,)]
     if name in ("removeprefix", "removesuffix", "startswith", "endswith"):
@@ -93,15 +111,18 @@ def arg_pool(name, t):
         return [(s,) for s in subs[:6]] + [(), (None, 1), (subs[0], 1)]
     if name == "split":
         seps = sorted({",", "X", " ", "aa", "a", ",,", "b,", "zz", "\n", "ab", "\r\n", t, t[:1], t[-1:], t[1:3]} - {""})
-        return [(s,) for s in seps]
+        return [(s,) for s in seps] + [("",)]            # '' raises ValueError, as str.split('')
     if name == "split_regex":
         return [(p,) for p in (",", ",+", r"\s+", "[,X]", "a|b", r"\d", r"l\d", "X{2}", r"\n|\r", "a(?=a)")]
     if name == "splitlines":
         return [(), (False,), (True,)]
     if name in ("ljust", "rjust"):
-        return [(w,) for w in (-1, 0, n - 1, n, n + 1, n + 3)] + [(w, c) for w in (n - 1, n, n + 2) for c in (".", " ", "漢")]
+        esc = [(n + 2, "\x1b")] if t.startswith("l1") else []                                    # D27: rare
+        return [(w,) for w in (-1, 0, n - 1, n, n + 1, n + 3)] + [(w, c) for w in (n - 1, n, n + 2) for c in (".", " ", "漢")] + esc
     if name == "join":
-        return [([],), (["x"],), (["x", "yz", ""],)]
+        red = ["f", [["q", {"fg": 31}]]]
+        two = ["f", [["r", {"bold": True}], ["", {"bg": 44}], ["s", {}]]]
+        return [([],), (["x"],), (["x", "yz", ""],), ([red],), (["x", red, two],), ([two, "", red, "y"],), ([["f", []], red],)]
     raise KeyError(name)
 
 
@@ -110,14 +131,16 @@ def mk_cases(ctx):
     texts = TEXTS if ctx.thorough else TEXTS
     for t in texts:
         lays = layouts_for(t)
-        for name in NATIVE + STR_METHODS + LIST_METHODS + OTHER_METHODS:
+        for name in NATIVE + STR_METHODS + LIST_METHODS + BYTES_METHODS + OTHER_METHODS:
             for args in arg_pool(name, t):
                 for li, f in enumerate(lays):
                     if not ctx.thorough and name not in NATIVE and li in (2, 8, 10) and len(t) > 4:
                         continue
                     cases.append(dict(m=name, args=list(args), f=f, lay=li))
+    # the Lean witness of the open finding D27 (C15_delegate_witness), replayed on the real code every run
+    cases.append(dict(m="replace", args=["a", "\x1b[31mx\x1b[39m"], f=[("a", {})], lay=0))
     ctx.exhaustive.append("%d texts x 13 layouts x %d methods x argument pool: %d cases" % (
-        len(texts), len(NATIVE + STR_METHODS + LIST_METHODS + OTHER_METHODS), len(cases)))
+        len(texts), len(NATIVE + STR_METHODS + LIST_METHODS + BYTES_METHODS + OTHER_METHODS), len(cases)))
     return cases
 
 
@@ -129,8 +152,16 @@ def call_real(c):
     if name == "split_regex":
         return f.split(args[0], regex=True)
     if name == "join":
-        return f.join(args[0])
+        return f.join([join_item(x) for x in args[0]])
     return getattr(f, name)(*args)
+
+
+def join_item(x):
+    return x if isinstance(x, str) else mk_fmt([tuple(ch) for ch in x[1]])
+
+
+def join_item_chunks(x):
+    return [(x, {})] if isinstance(x, str) else [tuple(ch) for ch in x[1]]
 
 
 def call_str(c):
@@ -139,6 +170,8 @@ def call_str(c):
     name, args = c["m"], c["args"]
     if name == "split_regex":
         return re.split(args[0], s)
+    if name == "join":
+        return s.join("".join(t for t, _ in join_item_chunks(x)) for x in args[0])
     return getattr(s, name)(*args)
 
 
@@ -147,6 +180,8 @@ def enc_result(r):
         return reply_fmt(r)
     if isinstance(r, list) and all(isinstance(x, FmtStr) for x in r):
         return reply_fmt_list(r)
+    if isinstance(r, bytes):
+        return "ok bytes " + ",".join(str(b) for b in r)
     return "ok other"
 
 
@@ -177,7 +212,7 @@ def line(c):
     if name in ("ljust", "rjust"):
         return "%s %s %d %s" % (name, fe, args[0], wire.enc_text(args[1]) if len(args) > 1 else "N")
     if name == "join":
-        return " ".join(["join", fe] + [wire.enc_chunks([(x, {})]) for x in args[0]])
+        return " ".join(["join", fe] + [wire.enc_chunks(join_item_chunks(x)) for x in args[0]])
     # delegated: the real str result is the value of the uninterpreted method
     try:
         r = call_str(c)
@@ -187,14 +222,16 @@ def line(c):
         return "delegate %s str %s" % (fe, wire.enc_tf(r))
     if isinstance(r, list):
         return "delegate %s list %s" % (fe, ";".join(wire.enc_tf(x) for x in r) or "-")
+    if isinstance(r, bytes):
+        return "delegate %s bytes %s" % (fe, ",".join(str(b) for b in r) or "e")
     return "delegate %s other x" % fe
 
 
 def canon(reply):
     if reply.startswith("ok ["):
         return canon_cells_list(reply)
-    if reply == "ok other":
-        return reply
+    if reply == "ok other" or reply.startswith("ok bytes"):
+        return reply.rstrip()
     return canon_cells(reply)
 
 
@@ -277,7 +314,7 @@ def _oracle(c):
         for i, x in enumerate(args[0]):
             if i:
                 want += cs
-            want += [(ch, ()) for ch in x]
+            want += wire.cells_of_chunks(join_item_chunks(x))
         if cells(r) != want or r.s != exp:
             return "join: got %r expected %r" % (cells(r), want)
         return None
@@ -292,6 +329,19 @@ def _oracle(c):
         npad = len(res) - len(orig)
         keep = res[:len(orig)] if name == "ljust" else res[npad:]
         pad = res[len(orig):] if name == "ljust" else res[:npad]
+        if orig:
+            # exactly what the statement's reading allows (see ASSUMPTIONS): with a shared bg the characters are
+            # untouched and the padding carries that bg only; otherwise a (non-shared) bg is dropped from the
+            # characters and the padding carries exactly the shared formatting
+            if "bg" in sh:
+                want_keep, want_pad = orig, {"bg": sh["bg"]}
+            else:
+                want_keep, want_pad = [{k: v for k, v in o.items() if k != "bg"} for o in orig], sh
+            if keep != want_keep:
+                return "%s: original characters have %r, expected %r" % (name, keep, want_keep)
+            for a in pad:
+                if a != want_pad:
+                    return "%s: padding has %r, expected exactly %r" % (name, a, want_pad)
         for a, o in zip(keep, orig):
             if not sub(sh, a):
                 return "%s: an original character lost formatting shared by all characters: has %r, shared %r" % (name, a, sh)
@@ -330,6 +380,17 @@ def oracle(c):
 
 
 def footprint(c, what):
+    """D27 (open): fmtstr(str) parses the escape sequences of a plain str - here the text a str method returned.
+    Precise predicate: the str result (or an element of a list result) that gets re-wrapped contains ESC '['."""
+    if c["m"] in NATIVE and not (c["m"] in ("ljust", "rjust") and len(c["args"]) > 1):
+        return None
+    try:
+        exp = call_str(c)
+    except Exception:  # noqa: BLE001
+        return None
+    texts = [exp] if isinstance(exp, str) else (exp if isinstance(exp, list) else [])
+    if any(isinstance(x, str) and "\x1b[" in x for x in texts):
+        return "D27"
     return None
 
 
